@@ -14,8 +14,11 @@ import (
 	"os"
 	"path/filepath"
 	"regexp"
+	"runtime/debug"
 	"sort"
 	"strings"
+	"sync"
+	"syscall"
 	"testing"
 	"time"
 
@@ -128,6 +131,60 @@ type vfc07OwnReq struct{ storepb.StoreServer }
 func (w vfc07OwnReq) Series(r *storepb.SeriesRequest, srv storepb.Store_SeriesServer) error {
 	cp := *r
 	return w.StoreServer.Series(&cp, srv)
+}
+
+// vfc07SetupErr is panicked by fixture helpers when the harness itself cannot be set up; vfc07Guard
+// turns it into an inconclusive run (never a verdict). Fixtures run on worker goroutines, where
+// t.Fatal must not be used.
+type vfc07SetupErr struct{ msg string }
+
+func vfc07Setup(format string, args ...any) { panic(vfc07SetupErr{fmt.Sprintf(format, args...)}) }
+
+// vfc07Guard runs f; a set-up failure makes the run inconclusive, any other panic is a violation
+// "panic:<what>" with the stack as witness (same as vfkit.Guard).
+func vfc07Guard(r *vfkit.Run, c int, what string, f func()) {
+	defer func() {
+		if p := recover(); p != nil {
+			if se, ok := p.(vfc07SetupErr); ok {
+				r.Inconclusive(fmt.Sprintf("case %d: harness set-up failed: %s", c, se.msg))
+				return
+			}
+			r.Violation(c, "panic:"+what, fmt.Sprintf("panic: %v", p), map[string]any{"case": c, "panic": fmt.Sprint(p), "stack": string(debug.Stack())})
+		}
+	}()
+	f()
+}
+
+// vfc07Parallel runs cases [0,n) on at most `workers` goroutines. Every case owns its PRNG stream
+// and its fixture, so results do not depend on the interleaving.
+func vfc07Parallel(r *vfkit.Run, n, workers int, f func(c int)) {
+	var wg sync.WaitGroup
+	ch := make(chan int)
+	for w := 0; w < workers; w++ {
+		wg.Add(1)
+		go func() {
+			defer wg.Done()
+			for c := range ch {
+				f(c)
+			}
+		}()
+	}
+	for c := 0; c < n; c++ {
+		if r.Want(c) {
+			ch <- c
+		}
+	}
+	close(ch)
+	wg.Wait()
+}
+
+// vfc07CPU is the process CPU time so far (user+sys); used for cost logging only, never for verdicts.
+func vfc07CPU() time.Duration {
+	var ru syscall.Rusage
+	if err := syscall.Getrusage(syscall.RUSAGE_SELF, &ru); err != nil {
+		return 0
+	}
+	return time.Duration(ru.Utime.Nano() + ru.Stime.Nano())
 }
 
 func vfc07Code(err error) codes.Code {
@@ -339,7 +396,7 @@ func vfc07GenFixtureSpec(rng *rand.Rand, o vfc07Opts) (*vfc07Universe, []vfc07Bl
 		sp := vfc07BlockSpec{
 			ext:        u.extSets[rng.Intn(len(u.extSets))],
 			chunkRange: width / []int64{1, 2, 3, 6}[rng.Intn(4)],
-			segSize:    []int64{0, 0, 2048, 8192, 32768}[rng.Intn(5)],
+			segSize:    []int64{0, 0, 4096, 16384, 65536}[rng.Intn(5)],
 		}
 		mode := "seq"
 		if b > 0 {
@@ -404,9 +461,10 @@ func vfc07WriteBlock(t testing.TB, blocksDir, scratch string, sp vfc07BlockSpec)
 	ho := tsdb.DefaultHeadOptions()
 	ho.ChunkDirRoot = scratch
 	ho.ChunkRange = sp.chunkRange
+	ho.StripeSize = 32 // the default 16384 stripes cost ~0.3 s per head under the race detector
 	h, err := tsdb.NewHead(nil, nil, nil, nil, ho, nil)
 	if err != nil {
-		t.Fatalf("vfc07: new head: %v", err)
+		vfc07Setup("new head: %v", err)
 	}
 	app := h.Appender(ctx)
 	// Append in global time order: a head rejects samples older than (first sample - chunkRange/2).
@@ -434,24 +492,24 @@ func vfc07WriteBlock(t testing.TB, blocksDir, scratch string, sp vfc07BlockSpec)
 			_, err = app.Append(0, s.lset, ts, vfc07Value(s.id, ts))
 		}
 		if err != nil {
-			t.Fatalf("vfc07: append %s@%d: %v", s.lset, ts, err)
+			vfc07Setup("append %s@%d: %v", s.lset, ts, err)
 		}
 	}
 	if err := app.Commit(); err != nil {
-		t.Fatalf("vfc07: commit: %v", err)
+		vfc07Setup("commit: %v", err)
 	}
 	comp, err := tsdb.NewLeveledCompactorWithOptions(ctx, nil, promslog.NewNopLogger(), []int64{1000000}, nil,
 		tsdb.LeveledCompactorOptions{MaxBlockChunkSegmentSize: sp.segSize, EnableOverlappingCompaction: true})
 	if err != nil {
-		t.Fatalf("vfc07: compactor: %v", err)
+		vfc07Setup("compactor: %v", err)
 	}
 	// block intervals are half-open, hence +1 (same as CreateBlockFromHead)
 	ids, err := comp.Write(blocksDir, h, h.MinTime(), h.MaxTime()+1, nil)
 	if err != nil || len(ids) == 0 {
-		t.Fatalf("vfc07: write block: %v (%d ids)", err, len(ids))
+		vfc07Setup("write block: %v (%d ids)", err, len(ids))
 	}
 	if err := h.Close(); err != nil {
-		t.Fatalf("vfc07: close head: %v", err)
+		vfc07Setup("close head: %v", err)
 	}
 	_ = os.RemoveAll(filepath.Join(scratch, "chunks_head"))
 	bdir := filepath.Join(blocksDir, ids[0].String())
@@ -461,7 +519,7 @@ func vfc07WriteBlock(t testing.TB, blocksDir, scratch string, sp vfc07BlockSpec)
 		Source:     metadata.TestSource,
 	}, nil)
 	if err != nil {
-		t.Fatalf("vfc07: inject meta: %v", err)
+		vfc07Setup("inject meta: %v", err)
 	}
 	return &vfc07Block{vfc07BlockSpec: sp, id: ids[0], dir: bdir, meta: meta}
 }
@@ -471,13 +529,13 @@ func vfc07NewFixture(t testing.TB, rng *rand.Rand, dir string, o vfc07Opts) *vfc
 	u, specs := vfc07GenFixtureSpec(rng, o)
 	fx := &vfc07Fixture{dir: dir, blocksDir: filepath.Join(dir, "blocks"), u: u, bkt: objstore.NewInMemBucket(), tmin: math.MaxInt64, tmax: math.MinInt64}
 	if err := os.MkdirAll(fx.blocksDir, 0o777); err != nil {
-		t.Fatalf("vfc07: mkdir: %v", err)
+		vfc07Setup("mkdir: %v", err)
 	}
 	edges := map[int64]bool{}
 	for i, sp := range specs {
 		b := vfc07WriteBlock(t, fx.blocksDir, filepath.Join(dir, fmt.Sprintf("head%d", i)), sp)
 		if err := block.Upload(context.Background(), log.NewNopLogger(), fx.bkt, b.dir, metadata.NoneFunc); err != nil {
-			t.Fatalf("vfc07: upload: %v", err)
+			vfc07Setup("upload: %v", err)
 		}
 		fx.blocks = append(fx.blocks, b)
 		if b.meta.MinTime < fx.tmin {
@@ -510,12 +568,12 @@ func (fx *vfc07Fixture) vfc07Range(rng *rand.Rand) (int64, int64) {
 			return fx.edges[rng.Intn(len(fx.edges))] + int64(rng.Intn(3)-1)*[]int64{1, vfc07Step}[rng.Intn(2)]
 		}
 	}
-	switch rng.Intn(8) {
-	case 0, 1:
+	switch rng.Intn(10) {
+	case 0, 1, 2:
 		return fx.tmin, fx.tmax
-	case 2:
-		return math.MinInt64, math.MaxInt64
 	case 3:
+		return math.MinInt64, math.MaxInt64
+	case 4:
 		x := pick()
 		return x, x
 	default:
@@ -550,7 +608,7 @@ func vfc07NewBucketStore(t testing.TB, fx *vfc07Fixture, cfg vfc07StoreCfg) *Buc
 	ibkt := objstore.WithNoopInstr(fx.bkt)
 	fetcher, err := block.NewRawMetaFetcher(logger, ibkt, block.NewConcurrentLister(logger, ibkt))
 	if err != nil {
-		t.Fatalf("vfc07: meta fetcher: %v", err)
+		vfc07Setup("meta fetcher: %v", err)
 	}
 	fx.nstore++
 	opts := []BucketStoreOption{WithLogger(logger)}
@@ -558,13 +616,13 @@ func vfc07NewBucketStore(t testing.TB, fx *vfc07Fixture, cfg vfc07StoreCfg) *Buc
 	case "large":
 		c, err := storecache.NewInMemoryIndexCacheWithConfig(logger, nil, nil, storecache.InMemoryIndexCacheConfig{MaxSize: thanosmodel.Bytes(64 << 20), MaxItemSize: thanosmodel.Bytes(8 << 20)})
 		if err != nil {
-			t.Fatalf("vfc07: cache: %v", err)
+			vfc07Setup("cache: %v", err)
 		}
 		opts = append(opts, WithIndexCache(c))
 	case "tiny":
 		c, err := storecache.NewInMemoryIndexCacheWithConfig(logger, nil, nil, storecache.InMemoryIndexCacheConfig{MaxSize: thanosmodel.Bytes(1200), MaxItemSize: thanosmodel.Bytes(400)})
 		if err != nil {
-			t.Fatalf("vfc07: cache: %v", err)
+			vfc07Setup("cache: %v", err)
 		}
 		opts = append(opts, WithIndexCache(c))
 	}
@@ -579,7 +637,7 @@ func vfc07NewBucketStore(t testing.TB, fx *vfc07Fixture, cfg vfc07StoreCfg) *Buc
 	if cfg.pooled {
 		p, err := pool.NewBucketedPool[byte](chunkBytesPoolMinSize, chunkBytesPoolMaxSize, 2, 1<<30)
 		if err != nil {
-			t.Fatalf("vfc07: pool: %v", err)
+			vfc07Setup("pool: %v", err)
 		}
 		opts = append(opts, WithChunkPool(p))
 	}
@@ -595,13 +653,13 @@ func vfc07NewBucketStore(t testing.TB, fx *vfc07Fixture, cfg vfc07StoreCfg) *Buc
 		NewChunksLimiterFactory(0), NewSeriesLimiterFactory(0), NewBytesLimiterFactory(0),
 		NewGapBasedPartitioner(gap), 4, sampling, cfg.hints, cfg.lazyReader, time.Hour, opts...)
 	if err != nil {
-		t.Fatalf("vfc07: new bucket store: %v", err)
+		vfc07Setup("new bucket store: %v", err)
 	}
 	if err := st.SyncBlocks(context.Background()); err != nil {
-		t.Fatalf("vfc07: sync blocks: %v", err)
+		vfc07Setup("sync blocks: %v", err)
 	}
 	if len(st.blocks) != len(fx.blocks) {
-		t.Fatalf("vfc07: store loaded %d of %d blocks", len(st.blocks), len(fx.blocks))
+		vfc07Setup("store loaded %d of %d blocks", len(st.blocks), len(fx.blocks))
 	}
 	return st
 }
@@ -612,9 +670,10 @@ func vfc07OpenDB(t testing.TB, rng *rand.Rand, fx *vfc07Fixture, headSeries int,
 	o := tsdb.DefaultOptions()
 	o.RetentionDuration = math.MaxInt64
 	o.WALSegmentSize = -1
+	o.StripeSize = 32
 	db, err := tsdb.Open(fx.blocksDir, nil, nil, o, nil)
 	if err != nil {
-		t.Fatalf("vfc07: open tsdb: %v", err)
+		vfc07Setup("open tsdb: %v", err)
 	}
 	db.DisableCompactions()
 	if headSeries > 0 {
@@ -623,12 +682,12 @@ func vfc07OpenDB(t testing.TB, rng *rand.Rand, fx *vfc07Fixture, headSeries int,
 		for i, l := range vfc07GenLsets(rng, fx.u, headSeries) {
 			for _, ts := range vfc07GenTimes(rng, start, slots) {
 				if _, err := app.Append(0, l, ts, vfc07Value(i, ts)); err != nil {
-					t.Fatalf("vfc07: head append: %v", err)
+					vfc07Setup("head append: %v", err)
 				}
 			}
 		}
 		if err := app.Commit(); err != nil {
-			t.Fatalf("vfc07: head commit: %v", err)
+			vfc07Setup("head commit: %v", err)
 		}
 		end := start + int64(slots)*vfc07Step
 		fx.edges = append(fx.edges, start, end)
@@ -714,8 +773,41 @@ func vfc07GenMatcher(rng *rand.Rand, name string, vals []string) vfc07M {
 		if err != nil {
 			continue // cannot happen for the quoted patterns; draw again
 		}
-		return vfc07M{m: m, shape: o.shape}
+		shape := o.shape
+		if strings.Contains(shape, "set") && vfc07HasDupAlt(o.v) {
+			shape += "-dup" // the same alternative listed twice, e.g. a|b|a
+		}
+		return vfc07M{m: m, shape: shape}
 	}
+}
+
+// vfc07HasDupAlt reports whether a (quoted) alternation lists one alternative more than once.
+func vfc07HasDupAlt(pat string) bool {
+	pat = strings.TrimSuffix(strings.TrimPrefix(pat, "("), ")")
+	seen := map[string]bool{}
+	cur := ""
+	flush := func() bool {
+		if seen[cur] {
+			return true
+		}
+		seen[cur] = true
+		cur = ""
+		return false
+	}
+	for i := 0; i < len(pat); i++ {
+		switch {
+		case pat[i] == '\\' && i+1 < len(pat):
+			cur += pat[i : i+2]
+			i++
+		case pat[i] == '|':
+			if flush() {
+				return true
+			}
+		default:
+			cur += string(pat[i])
+		}
+	}
+	return flush()
 }
 
 func vfc07FirstRune(s string) string {
@@ -736,7 +828,7 @@ func vfc07LastRune(s string) string {
 // vfc07GenMatchers draws 1..3 matchers over stored names, external label names and an absent name;
 // a following matcher reuses the previous name with probability 1/3 (merging of posting groups).
 func vfc07GenMatchers(rng *rand.Rand, u *vfc07Universe, extProb float64) []vfc07M {
-	n := 1 + rng.Intn(3)
+	n := []int{1, 1, 1, 2, 2, 3}[rng.Intn(6)]
 	var out []vfc07M
 	extVals := map[string][]string{"cluster": {"eu", "us"}, "replica": {"r0", "r1", "r2"}, "region": {"one", "two"}}
 	for i := 0; i < n; i++ {
@@ -812,6 +904,25 @@ func vfc07Shapes(ms []vfc07M) string {
 	return out
 }
 
+func vfc07GenReplicaLabels(rng *rand.Rand, u *vfc07Universe) []string {
+	if rng.Intn(2) == 0 {
+		return nil
+	}
+	cands := append([]string{"absent"}, u.extNames...)
+	cands = append(cands, u.names...)
+	var out []string
+	seen := map[string]bool{}
+	for i := 0; i < 1+rng.Intn(3); i++ {
+		c := cands[rng.Intn(len(cands))]
+		if c == labels.MetricName || seen[c] {
+			continue
+		}
+		seen[c] = true
+		out = append(out, c)
+	}
+	return out
+}
+
 func vfc07SortedKeys(m map[string]struct{}) []string {
 	out := make([]string, 0, len(m))
 	for k := range m {
@@ -830,4 +941,3 @@ func vfc07DescribeFixture(fx *vfc07Fixture) []map[string]any {
 	return out
 }
 
-var _ = vfkit.Alphabet
